@@ -65,6 +65,11 @@ def gen_scenario(rng, i):
     kind = 'layout' if i % 8 in (1, 7) else 'csv'
     leftover = False
     b = bm.gen_budget(rng, 'migrate')
+    if b.get('csv_rules'):
+        # at least one row is categorised by the user's rules in every scenario: otherwise "classifies as before" says nothing
+        rows0 = [rw for s_ in b['sources'] for rw in s_['rows']]
+        if rows0:
+            b['csv_rules'][0]['pattern'] = rows0[0]['desc'].split()[0].split('.')[0]
     pre = {}
     tty = {'stdin': False, 'stdout': False, 'answers': []}
     net = rng.choice(['down', 'down', 'timeout', '403', 'garbage', 'same', 'newer', 'older'])
@@ -72,13 +77,13 @@ def gen_scenario(rng, i):
     if kind == 'csv':
         variant = rng.choice(['up-migrate', 'up-migrate', 'up-tty', 'init', 'init'])
         force_leftover = i % 8 == 2       # stratified like the settings variants: every batch of eight has one
-        if force_leftover:
-            variant = rng.choice(['up-migrate', 'up-migrate', 'up-tty'])
+        if force_leftover or i % 8 == 5:
+            variant = rng.choice(['up-migrate', 'up-migrate', 'up-tty'])      # (slot 5: the budget run with another settings file)
         if variant == 'init' and rng.random() < 0.4:
             base = 'mybudget/'
             b['base'] = base
             b['bystanders'] = {base + k if not k.startswith(base) else k: v for k, v in b['bystanders'].items()}
-        if variant != 'init' and rng.random() < 0.3:
+        if variant != 'init' and rng.random() < 0.3 and i % 8 != 5:
             # the budget already uses the new layout (./tally/config)
             base = 'tally/'
             b['base'] = base
@@ -139,8 +144,14 @@ def gen_scenario(rng, i):
             # the budget is run with another settings file (-s): that is the file the migration has to point at the new rules
             alt = 'settings-alt.yaml'
             files[cfg + '/' + alt] = files[sp]
-            if rng.random() < 0.5:
+            r_alt = rng.random() if i % 8 != 5 else [0.2, 0.5, 0.9][(i // 8) % 3]
+            if r_alt < 0.35:
                 files[sp] = 'year: 2020\ndata_sources: []\n'
+            elif r_alt < 0.7:
+                # the default settings.yaml (another year of the same budget) already runs on a .rules file of its own; the settings
+                # file in use still relies on the legacy CSV
+                files[sp] = files[sp].rstrip('\r\n') + ('\r\n' if '\r\n' in files[sp] else '\n') + 'merchants_file: config/rules-2020.rules\n'
+                files[cfg + '/rules-2020.rules'] = '[Old Year]\nmatch: contains("OLDYEAR")\ncategory: Misc\nsubcategory: Old\n'
             extra_s = ['-s', alt]
         leftover = variant != 'init' and not pre and (rng.random() < 0.12 or force_leftover)
         if not pre and not leftover and 'merchants_file' not in files[sp] and (i % 8 == 4 or rng.random() < 0.05):
